@@ -2,7 +2,7 @@
     Statements only; proofs in Proofs/ValTables.v (tables) and Proofs/ValLaws.v (short circuit). *)
 From Coq Require Import List ZArith NArith Bool.
 From RRSS Require Import Base.Outcome Base.Chars Base.F64 Base.F64Text Exec.Val Exec.Ops Front.Ast Exec.Env Exec.Interp.
-From RRSS Require Import Proofs.ValTables Proofs.ValLaws.
+From RRSS Require Import Proofs.ValTables Proofs.ValLaws Proofs.InterpPure.
 Import ListNotations.
 
 (** the model of val.rs (written as the Rust is, with its argument-swapping recursion) computes
@@ -84,5 +84,18 @@ Theorem C03_invalid_is_error :
   (spec_compare a b = OrdError -> is_err (v_compare a b) = true).
 Proof. exact invalid_is_error. Qed.
 
+(** evaluating an expression without calls and without `roll` has no effect on any variable, scope,
+    channel or budget: only the pronoun's referent moves *)
+Theorem C03_call_free_expressions_have_no_effect :
+  forall prof f x e v e', pure_expr x = true -> produce_expr prof f x e = XOk v e' ->
+  scopes e' = scopes e /\ chan e' = chan e /\ steps e' = steps e /\ depth e' = depth e.
+Proof. exact pure_expr_frame. Qed.
+
+Theorem C03_call_free_expressions_have_no_effect_on_error :
+  forall prof f x e err e', pure_expr x = true -> produce_expr prof f x e = XErr err e' ->
+  scopes e' = scopes e /\ chan e' = chan e /\ steps e' = steps e /\ depth e' = depth e.
+Proof. exact pure_expr_frame_err. Qed.
+
 Print Assumptions C03_equals_table.
 Print Assumptions C03_compare_table.
+Print Assumptions C03_call_free_expressions_have_no_effect.
